@@ -24,6 +24,22 @@ func gStr(s string) string {
 	if plain {
 		return common.GStr(s)
 	}
+	// only newlines besides printable characters: a list of lines (much faster for coqc to parse than a byte list)
+	onlyNL := true
+	for i := 0; i < len(s); i++ {
+		if (s[i] < 32 || s[i] >= 127) && s[i] != '\n' {
+			onlyNL = false
+			break
+		}
+	}
+	if onlyNL {
+		lines := strings.Split(s, "\n")
+		items := make([]string, len(lines))
+		for i, l := range lines {
+			items[i] = common.GStr(l)
+		}
+		return "(ln " + common.GList(items) + ")"
+	}
 	items := make([]string, len(s))
 	for i := 0; i < len(s); i++ {
 		items[i] = fmt.Sprintf("%d", s[i])
